@@ -25,6 +25,7 @@ import Hs.Model.NsProtos
     protos G <npd> {<name> <0|1 children usable> <nc> PD* <nf> f..}* <np> PD*
                                         per parent the set of prototypes, each `{key:token,..}` with keys sorted,
                                         the set sorted and joined by |; parents joined by ;
+    small G <k> n..                     `has_subtype` per name (0|1, joined by ,) `#` `all_matching_names(n..)` in order
     core G                              the sixteen fields of `core_type_defs`: the def's name or `-`, joined by ,
 -/
 namespace Hs.Drv.C13
@@ -302,6 +303,17 @@ def coreReq (ts : List String) : String :=
       | some n => H n
       | none => "-"))
 
+def smallReq (ts : List String) : String :=
+  match pRows ts with
+  | none => "bad-request"
+  | some (rows, ts) =>
+    match pNames ts with
+    | none => "bad-request"
+    | some (names, _) =>
+      let ns := make rows
+      "ok " ++ ",".intercalate (names.map (fun n => if NsA.hasSubtype ns n then "1" else "0")) ++ "#" ++
+        showList (NsA.allMatchingNames ns.defs names)
+
 /-- requests `C13 <cmd> ...` (tokens after the property id) -/
 def handle (ts : List String) : String :=
   match ts with
@@ -313,6 +325,7 @@ def handle (ts : List String) : String :=
     else if cmd = "ent" then entReq rest
     else if cmd = "protos" then protosReq rest
     else if cmd = "core" then coreReq rest
+    else if cmd = "small" then smallReq rest
     else "bad-request"
   | [] => "bad-request"
 
